@@ -559,3 +559,13 @@ Proof.
     + rewrite (encode_l_err _ _ _ X). reflexivity.
     + reflexivity.
 Qed.
+
+(* Compose on a value with a user-data header: the header component is never read nor written, and label / octets are
+   those of compose_step on the projection - so C09_compose_reused holds whatever header the value carries *)
+Theorem compose_step_u_spec {H : Type} (dc : N) (u : H) (o : bytes) rs :
+  let r := compose_step_u (dc, u, o) rs in
+  snd (fst (fst r)) = u /\
+  (fst (fst (fst r)), snd (fst r)) = fst (compose_step (dc, o) rs) /\ snd r = snd (compose_step (dc, o) rs).
+Proof.
+  unfold compose_step_u. destruct (compose_step (dc, o) rs) as [[dc' o'] st]. cbn. repeat split.
+Qed.
